@@ -326,18 +326,40 @@ func TestVerifC18RC(t *testing.T) {
 				}
 			}()
 			synctest.Test(t, func(t *testing.T) {
+				// GC never due / always due / due after 2.5 s (soft) resp. 1.5 s (hard): the loop + GC composition and the
+				// ticker's period (also after a re-arming restart) are compared through check / read / GC COUNTS per window
+				gcCfgs := [][2]time.Duration{{time.Hour, time.Hour}, {0, 0}, {2500 * time.Millisecond, 1500 * time.Millisecond}}
+				gc := gcCfgs[r.IntN(3)]
+				switch idx {
+				case 0, 1:
+					gc = gcCfgs[0]
+				case 2:
+					gc = gcCfgs[1]
+				case 3:
+					gc = gcCfgs[2]
+				}
 				cfg := &Config{CheckInterval: time.Second, MemoryLimitMiB: 100, MemorySpikeLimitMiB: 20,
-					MinGCIntervalWhenSoftLimited: time.Hour, MinGCIntervalWhenHardLimited: time.Hour}
+					MinGCIntervalWhenSoftLimited: gc[0], MinGCIntervalWhenHardLimited: gc[1]}
 				ml, err := NewMemoryLimiter(cfg, zap.NewNop())
 				if err != nil {
 					t.Fatal(err)
 				}
 				start := time.Now()
-				reads := 0
-				alloc := uint64(1)
-				ml.readMemStatsFn = func(ms *runtime.MemStats) { reads++; ms.Alloc = alloc }
-				ml.runGCFn = func() {}
+				out.Linef("op rccfg gs=%d gh=%d ci=%d", int64(gc[0]), int64(gc[1]), int64(cfg.CheckInterval))
+				reads, gcs := 0, 0
+				alloc, after := uint64(1), uint64(1)
+				afterGC := false
+				ml.readMemStatsFn = func(ms *runtime.MemStats) {
+					reads++
+					if afterGC {
+						ms.Alloc, afterGC = after, false
+					} else {
+						ms.Alloc = alloc
+					}
+				}
+				ml.runGCFn = func() { gcs++; afterGC = true }
 				users, restarts := 0, 0
+				totalChecks, totalGCs := 0, 0
 				everZero := false
 				call := func(name string, f func() error) (err error, panicked bool) {
 					defer func() {
@@ -374,7 +396,7 @@ func TestVerifC18RC(t *testing.T) {
 					opReads = reads
 					switch op {
 					case 0:
-						out.Linef("op start")
+						out.Linef("op start now=%d", int64(time.Since(start)))
 						err, p := call("start", func() error { return ml.Start(context.Background(), nil) })
 						if p {
 							return
@@ -402,23 +424,32 @@ func TestVerifC18RC(t *testing.T) {
 							out.Linef("viol sig=C18/refcount/unexpected-error %v", err)
 						}
 					}
-					// every op is followed by a tick window with a scripted reading
-					alloc = []uint64{0, soft - 1, soft, soft + 1, 200 << 20}[r.IntN(5)]
+					// every op is followed by a window of virtual time (1, 1.5 or 2.5 check intervals) with a scripted reading
+					// and GC effect; observed: how many checks, reads and forced GCs the monitoring goroutine made, and the mode
+					pts := []uint64{0, soft - 1, soft, soft + 1, 100 << 20, 200 << 20}
+					alloc, after = pts[r.IntN(len(pts))], pts[r.IntN(len(pts))]
 					if idx == 2 || idx == 3 {
 						alloc = 200 << 20
 					}
-					before := reads
-					time.Sleep(cfg.CheckInterval + cfg.CheckInterval/2)
+					win := []time.Duration{cfg.CheckInterval, cfg.CheckInterval + cfg.CheckInterval/2, 2*cfg.CheckInterval + cfg.CheckInterval/2}[r.IntN(3)]
+					beforeR, beforeG := reads, gcs
+					a := time.Since(start)
+					time.Sleep(win)
 					synctest.Wait()
-					out.Linef("op tick r=%d now=%d", alloc, int64(time.Since(start)))
+					out.Linef("op tick a=%d b=%d r=%d g=%d", int64(a), int64(time.Since(start)), alloc, after)
 					lastRefuse = ml.MustRefuse()
-					out.Linef("obs tick checked=%d refuse=%d", vB(reads > before), vB(lastRefuse))
+					dR, dG := reads-beforeR, gcs-beforeG
+					out.Linef("obs tick checks=%d reads=%d gcs=%d refuse=%d", dR-dG, dR, dG, vB(lastRefuse))
+					totalChecks += dR - dG
+					totalGCs += dG
 				}
 				if restarts > 0 || len(ops) > 4 {
 					out.Linef("nt")
 				}
 				out.Linef("stat ops %d", len(ops))
 				out.Linef("stat restarts_after_full_shutdown %d", restarts)
+				out.Linef("stat ticker_checks %d", totalChecks)
+				out.Linef("stat ticker_forced_gcs %d", totalGCs)
 			})
 		}()
 		out.Linef("end")
